@@ -75,7 +75,7 @@ class Identifier(ASTNode):
         return self.parts_to_str()
 
     def __copy__(self):
-        identifier = Identifier(parts=copy(self.parts))
+        identifier = Identifier(parts=[part if isinstance(part, str) else deepcopy(part) for part in self.parts])
         identifier.alias = deepcopy(self.alias)
         identifier.parentheses = self.parentheses
         if hasattr(self, 'sub_select'):
@@ -83,7 +83,7 @@ class Identifier(ASTNode):
         return identifier
 
     def __deepcopy__(self, memo):
-        identifier = Identifier(parts=copy(self.parts))
+        identifier = Identifier(parts=[part if isinstance(part, str) else deepcopy(part) for part in self.parts])
         identifier.alias = deepcopy(self.alias)
         identifier.parentheses = self.parentheses
         if hasattr(self, 'sub_select'):
